@@ -77,3 +77,41 @@ package prelude
 //@   trusted
 //@   modifies nothing
 //@   ensures err != nil ==> result != nil
+
+//@ package io
+
+// io.Reader: 0 <= n <= len(p); the bytes land in p (frame: only p's elements).
+//@ func (Reader).Read
+//@   trusted
+//@   modifies elems(p)
+//@   ensures 0 <= n && n <= len(p)
+
+//@ func (Writer).Write
+//@   trusted
+//@   modifies nothing
+//@   ensures 0 <= n && n <= len(p)
+
+//@ package encoding/binary
+
+//@ func ReadUvarint
+//@   trusted
+//@   modifies nothing
+
+// PutUvarint panics when the buffer is too small for the value.
+//@ func PutUvarint
+//@   trusted
+//@   requires (len(buf) >= 10) || (len(buf) == 5 && x < 34359738368) || (len(buf) == 9 && x < 9223372036854775808)
+//@   modifies elems(buf)
+//@   ensures 1 <= result && result <= len(buf)
+
+//@ package google.golang.org/protobuf/proto
+
+// protobuf refuses messages of 2 GiB and more.
+//@ func Marshal
+//@   trusted
+//@   modifies nothing
+//@   ensures result1 == nil ==> len(result0) < 2147483648
+
+//@ func Unmarshal
+//@   trusted
+//@   modifies nothing
